@@ -10,6 +10,8 @@ fn main() {
         "C26" => e5_c26::c26(&args),
         "C24" | "C25" => e2_hnsw::run(&args),
         "C34" => e2_rules::c34(&args),
+        "C09" => e2_rules::c09(&args),
+        "C35" => e2_c35::c35(&args),
         "C31" => e5::c31(&args),
         "C28" => e5::c28(&args),
         "C11" => e2_store::c11(&args),
